@@ -10,6 +10,9 @@ const HDR: usize = 20;
 const KEY: usize = 64;
 /// Largest file explored: header + 2 keys.
 const FILE_MAX: usize = HDR + 2 * KEY;
+/// Backing arrays are one byte longer than the longest slice taken from them (a slice that ends
+/// exactly at the end of its array makes CBMC explore phantom one-past-the-end cases).
+const FILE_BUF: usize = FILE_MAX + 1;
 
 fn be32(b: &[u8], at: usize) -> u32 {
     u32::from_be_bytes([b[at], b[at + 1], b[at + 2], b[at + 3]])
@@ -20,7 +23,7 @@ fn be64(b: &[u8], at: usize) -> u64 {
 
 /// Checks shared by the load harnesses: what an accepted file must look like and what was loaded.
 /// Returns the loaded key set for further use.
-fn check_loaded(file: &[u8; FILE_MAX], n: usize, history: usize, p: &KeySetProvider, time: SystemTime) {
+fn check_loaded(file: &[u8; FILE_BUF], n: usize, history: usize, p: &KeySetProvider, time: SystemTime) {
     let secs = be64(file, 0);
     let off = be32(file, 8);
     let primary = be32(file, 12);
@@ -32,7 +35,7 @@ fn check_loaded(file: &[u8; FILE_MAX], n: usize, history: usize, p: &KeySetProvi
     assert!(kh::keyset_id_offset(&ks) == off, "id offset restored");
     assert!(kh::keyset_primary(&ks) == primary, "primary restored");
     assert!(kh::provider_history(p) == history, "configured history kept");
-    assert!(time == SystemTime::UNIX_EPOCH + Duration::from_secs(secs), "creation time restored");
+    assert!(SystemTime::UNIX_EPOCH.checked_add(Duration::from_secs(secs)) == Some(time), "creation time restored");
     let mut k = 0;
     while k < len {
         assert!(eq64(kh::keyset_key_bytes(&ks, k), &file[HDR + KEY * k..]), "key bytes restored");
@@ -44,20 +47,19 @@ fn check_loaded(file: &[u8; FILE_MAX], n: usize, history: usize, p: &KeySetProvi
 }
 
 /// Any byte string of up to 148 bytes (symbolic length) as key file. If it is accepted, the result
-/// is exactly what the file says and is usable. Two regions are excluded here and shown to fail in
-/// the `_kf_` harnesses below: `primary == number of keys`, and a time stamp >= 2^63 seconds.
+/// is exactly what the file says and is usable. (Before the fixes e6a5d66 / 5b49617 two regions
+/// violated this: `primary == number of keys` was accepted, a time stamp >= 2^63 s panicked; they
+/// are kept as the dedicated harnesses `c27_load_primary_eq_len` / `c27_load_time_overflow`.)
 crate::ks_harness_spec! {
     #[kani::unwind(4)]
     fn c27_load() {
-        let file: [u8; FILE_MAX] = kani::any();
+        let file: [u8; FILE_BUF] = kani::any();
         let n: usize = kani::any();
         let history: usize = kani::any();
         kani::assume(n <= FILE_MAX);
         let secs = be64(&file, 0);
         let primary = be32(&file, 12);
         let len = be32(&file, 16);
-        kani::assume(secs <= i64::MAX as u64); // known finding: load panics on larger time stamps
-        kani::assume(primary != len); // known finding: accepted, later index out of bounds
         let mut rd: &[u8] = &file[..n];
         match KeySetProvider::load(&mut rd, history) {
             Ok((p, time)) => {
@@ -72,6 +74,8 @@ crate::ks_harness_spec! {
                 std::mem::forget(e);
                 kani::cover!(n < HDR, "truncated header rejected");
                 kani::cover!(n >= HDR && primary > len, "primary beyond the key count rejected");
+                kani::cover!(n == FILE_MAX && primary == len && len == 2, "primary == key count rejected");
+                kani::cover!(n == FILE_MAX && secs > i64::MAX as u64 && len == 1 && primary == 0, "unrepresentable time stamp rejected");
                 kani::cover!(n == FILE_MAX && len == 3 && primary < 3, "file shorter than its declared keys rejected");
                 kani::cover!(n == HDR + KEY + 5 && len == 2 && primary < 2, "truncated inside the second key rejected");
             }
@@ -79,10 +83,11 @@ crate::ks_harness_spec! {
     }
 }
 
-/// Expected to FAIL (known finding `primary == len`): a file whose primary equals its number of
-/// keys (e.g. the 20-byte file "no keys") is accepted, and issuing a cookie then indexes out of
-/// bounds. `with_key` selects the 0-key / 1-key instance.
-fn kf_primary_eq_len_body(nkeys: u32, mut file: [u8; HDR + KEY]) {
+/// Regression harness for the fixed defect "primary == number of keys" (fix e6a5d66; before it the
+/// 20-byte all-zero file loaded and the first `encode_cookie` panicked at keyset.rs:172 with
+/// "index out of bounds: the len is 0 but the index is 0"). Such a file must be rejected; if it were
+/// accepted the harness goes on to issue a cookie, so a regression shows up as the real crash.
+fn primary_eq_len_body(nkeys: u32, mut file: [u8; HDR + KEY]) {
     file[12..16].copy_from_slice(&nkeys.to_be_bytes()); // primary
     file[16..20].copy_from_slice(&nkeys.to_be_bytes()); // number of keys
     let n = HDR + KEY * nkeys as usize;
@@ -90,49 +95,54 @@ fn kf_primary_eq_len_body(nkeys: u32, mut file: [u8; HDR + KEY]) {
     match KeySetProvider::load(&mut rd, 1) {
         Ok((p, _time)) => {
             let ks = p.get();
-            // (no oracle assertion here on purpose: the failure this harness exhibits is the crash
-            // of the real code, `self.keys[self.primary as usize]` in encode_cookie)
             // what the NTS-KE server and the NTP server do with the loaded set:
             let c = cookie256([1; 32], [2; 32]);
             let enc = kh::keyset_encode_cookie(&ks, &c);
             assert!(enc.len() > 22, "cookie issued");
+            assert!(false, "a key file whose primary is not one of its keys must be rejected");
             std::mem::forget(c);
             std::mem::forget(ks);
             std::mem::forget(p);
         }
-        Err(e) => std::mem::forget(e),
+        Err(e) => {
+            std::mem::forget(e);
+            kani::cover!(nkeys == 0, "file without keys rejected");
+            kani::cover!(nkeys == 1, "one key, primary 1 rejected");
+        }
     }
 }
 
 crate::ks_harness_spec! {
     #[kani::unwind(40)]
-    fn c27_load_kf_primary_eq_len() {
+    fn c27_load_primary_eq_len() {
         symbolic_aead(MODE_EXPECT_OK);
         let file: [u8; HDR + KEY] = kani::any();
         let with_key: bool = kani::any();
-        let secs = be64(&file, 0);
-        kani::assume(secs <= i64::MAX as u64);
         if with_key {
-            kf_primary_eq_len_body(1, file);
+            primary_eq_len_body(1, file);
         } else {
-            kf_primary_eq_len_body(0, file);
+            primary_eq_len_body(0, file);
         }
     }
 }
 
-/// Expected to FAIL (known finding `time >= 2^63 s`): `UNIX_EPOCH + Duration::from_secs(secs)`
-/// panics inside `load` instead of rejecting the file.
+/// Regression harness for the fixed defect "time stamp >= 2^63 s" (fix 5b49617; before it `load`
+/// panicked at keyset.rs:101 "overflow when adding duration to `SystemTime`" on the 20-byte file
+/// 80 00 .. 00). Such a header must be rejected without panic, whatever follows.
 crate::ks_harness_spec! {
     #[kani::unwind(4)]
-    fn c27_load_kf_time_overflow() {
-        let file: [u8; HDR] = kani::any();
+    fn c27_load_time_overflow() {
+        let file: [u8; HDR + KEY + 1] = kani::any();
+        let n: usize = kani::any();
+        kani::assume(n >= HDR && n <= HDR + KEY);
         let secs = be64(&file, 0);
         kani::assume(secs > i64::MAX as u64);
-        let mut rd: &[u8] = &file[..];
+        let mut rd: &[u8] = &file[..n];
         let r = KeySetProvider::load(&mut rd, 1);
-        // reaching this point at all is the property ("rejects it or loads it; never crashes")
-        kani::cover!(r.is_err(), "rejected");
+        let rejected = r.is_err();
         std::mem::forget(r);
+        assert!(rejected, "a time stamp that SystemTime cannot represent is rejected");
+        kani::cover!(secs == 1u64 << 63 && n == HDR + KEY && be32(&file, 16) == 1 && be32(&file, 12) == 0, "otherwise valid one-key file rejected for its time stamp");
     }
 }
 
@@ -191,12 +201,12 @@ fn crash_body(nkeys: usize) {
     let full = HDR + KEY * nkeys;
     kani::assume(cut <= full);
     let p = stored_provider(nkeys, &keys, off, history);
-    let mut buf = [0u8; FILE_MAX];
+    let mut buf = [0u8; FILE_BUF];
     {
         let mut w: &mut [u8] = &mut buf[..];
         let r = p.store(&mut w);
         assert!(r.is_ok(), "storing into a large enough file succeeds");
-        assert!(w.len() == FILE_MAX - full, "store writes header + 64 bytes per key");
+        assert!(w.len() == FILE_BUF - full, "store writes header + 64 bytes per key");
         std::mem::forget(r);
     }
     let mut rd: &[u8] = &buf[..cut];
@@ -254,14 +264,14 @@ crate::ks_harness_spec! {
         let c = cookie256(s2c, c2s);
         let before = p.get();
         let enc = kh::keyset_encode_cookie(&before, &c);
-        let mut buf = [0u8; FILE_MAX];
+        let mut buf = [0u8; FILE_BUF];
         {
             let mut w: &mut [u8] = &mut buf[..];
             let r = p.store(&mut w);
             assert!(r.is_ok(), "store succeeds");
             std::mem::forget(r);
         }
-        let mut rd: &[u8] = &buf[..];
+        let mut rd: &[u8] = &buf[..FILE_MAX];
         match KeySetProvider::load(&mut rd, history) {
             Ok((q, _time)) => {
                 let after = q.get();
